@@ -211,7 +211,7 @@ def _index_build(M):
     return Build()
 
 
-register(QI + 'build', [_index_build(M) for M in ('EDIT_DISTANCE', 'JACCARD')], props=('C03', 'C04', 'C09', 'C14'))
+register(QI + 'build', [_index_build(M) for M in MEASURES], props=('C03', 'C04', 'C09', 'C14'))
 
 
 # ============================================================================ PrefixFilter
@@ -307,4 +307,4 @@ def _find_candidates(M):
     return FindCandidates()
 
 
-register(QF + 'find_candidates', [_find_candidates(M) for M in ('EDIT_DISTANCE', 'JACCARD')], props=('C03', 'C04', 'C14'))
+register(QF + 'find_candidates', [_find_candidates(M) for M in MEASURES], props=('C03', 'C04', 'C14'))
